@@ -22,7 +22,7 @@ TASK: make ONE realistic change to the library's non-test source code (a plausib
   (c) the property above is violated by the changed library, but only under something specific: an unusual input shape, a multi-step sequence of operations, a particular configuration, a particular interleaving or fault point, or two cooperating sites that each look fine alone. Do NOT make a change that ordinary use would expose at once.
 Do not edit, delete or add to existing *_test.go files. Do not touch files named zz_contracts_verif.go.
 
-Then write a DEMONSTRATION: a new Go test file (in-package test is fine, name it zz_seed_{pid.lower()}_test.go in the relevant package directory) that FAILS with your change and PASSES on the unchanged code. Verify both directions yourself (use `git stash` / `git stash pop`, or `git diff > p.diff; git checkout -- <files>; ...; git apply p.diff`).
+Then write a DEMONSTRATION: a new Go test file (in-package test is fine, name it zz_seed_{pid.lower()}_test.go in the relevant package directory) that FAILS with your change and PASSES on the unchanged code. Verify both directions yourself (use `git diff > p.diff; git checkout -- <files>; ...; git apply p.diff`; NEVER use `git stash`: the stash is shared between all worktrees of the repository and other agents work in sibling worktrees).
 
 DELIVERABLES in {out}/ :
   patch.diff   — `git diff` of the library change only (NOT including the demonstration test), applicable with `git apply` at the worktree root
